@@ -1,4 +1,5 @@
 import EmmyVerif.Model.Order
+import EmmyVerif.Model.PermExport
 import EmmyVerif.Drv.Util
 /-! Driver ops of the `order` family (C11, C35). Lists are `,`-separated numbers, `-` = empty;
 dependency maps are `;`-separated `v:d,d,…`. -/
@@ -43,8 +44,44 @@ def wsFn (m : List (Nat × Nat)) (f : Nat) : Nat :=
   | some p => p.2
   | none => 1
 
+def parseDot (s : String) : Option (List Nat) :=
+  if s == "" then some [] else (s.splitOn ".").mapM (fun x => x.toNat?)
+
+def parseRecords (s : String) : Option (List (List String)) :=
+  if s == "-" then some [] else some ((s.splitOn ";").map (fun e => e.splitOn ":"))
+
+def parseTypes (s : String) : Option (List Export.TypeDecl) := do
+  (← parseRecords s).mapM fun r =>
+    match r with
+    | [n, k, locs] => do pure ⟨(← n.toNat?), (← k.toNat?), (← parseDot locs)⟩
+    | _ => none
+
+def parseModules (s : String) : Option (List Export.ModuleInfo) := do
+  (← parseRecords s).mapM fun r =>
+    match r with
+    | [n, f, e] => do pure ⟨(← n.toNat?), (← f.toNat?), e == "1"⟩
+    | _ => none
+
+def parseGlobals (s : String) : Option (List Export.GlobalDecl) := do
+  (← parseRecords s).mapM fun r =>
+    match r with
+    | [n, f, p, t] => do pure ⟨(← n.toNat?), (← f.toNat?), (← p.toNat?), t == "1"⟩
+    | _ => none
+
 def handle (op : String) (args : List String) : Option String :=
   match op, args with
+  | "export_types", [mains, listing] => do
+    let mains ← parseList mains
+    let l ← parseTypes listing
+    pure ("ok " ++ showList ((Export.exportTypes (fun f => mains.contains f) l).map (·.name)))
+  | "export_modules", [mains, listing] => do
+    let mains ← parseList mains
+    let l ← parseModules listing
+    pure ("ok " ++ Drv.joinWith "," ((Export.exportModules (fun f => mains.contains f) l).map fun m => s!"{m.name}/{m.file}"))
+  | "export_globals", [mains, listing] => do
+    let mains ← parseList mains
+    let l ← parseGlobals listing
+    pure ("ok " ++ Drv.joinWith "," ((Export.exportGlobals (fun f => mains.contains f) l).map fun g => s!"{g.name}/{g.file}/{g.pos}"))
   | "best", [ids, metas, deps] => do
     let ids ← parseList ids
     let metas ← parseList metas
